@@ -89,6 +89,9 @@ func (e *vEnv) rewriteOp(o vRewriteOp, ids []string, ctxWrap func(ctx context.Co
 				Metadata: snapshotMetadataArgs{Hostname: o.Arg}}, gopts, ids, gopts.Term)
 		case "repair-forget":
 			return runRepairSnapshots(ctx, gopts, RepairOptions{Forget: true}, ids, gopts.Term)
+		case "repair-forget-all":
+			// no snapshot named: every snapshot of the repository is looked at
+			return runRepairSnapshots(ctx, gopts, RepairOptions{Forget: true}, nil, gopts.Term)
 		}
 		return fmt.Errorf("unknown op %v", o)
 	})
@@ -98,7 +101,7 @@ func vGenRewriteOps(r *rand.Rand, n int) []vRewriteOp {
 	kinds := []vRewriteOp{{"tag-add", "x"}, {"tag-add", "y"}, {"tag-remove", "x"}, {"tag-set", "w"},
 		{"rewrite-exclude", "f1"}, {"rewrite-exclude-forget", "f2"}, {"rewrite-exclude-forget", "a"},
 		{"rewrite-host", "newhost"}, {"rewrite-host-forget", "otherhost"}, {"rewrite-nomatch", "no-such-name-zz"},
-		{"repair-forget", ""}, {"rewrite-exclude-forget", "f3"}, {"rewrite-exclude-forget", "c"}}
+		{"repair-forget", ""}, {"rewrite-exclude-forget", "f3"}, {"rewrite-exclude-forget", "c"}, {"repair-forget-all", ""}, {"repair-forget-all", ""}}
 	var ops []vRewriteOp
 	for i := 0; i < n; i++ {
 		ops = append(ops, kinds[r.Intn(len(kinds))])
@@ -167,6 +170,8 @@ func TestVerif_C26(t *testing.T) {
 			first[id] = id
 		}
 		ops := vGenRewriteOps(r, nops)
+		// every history ends with a repair over all snapshots while one healthy snapshot file cannot be loaded
+		ops = append(ops, vRewriteOp{"repair-forget-all", "!"})
 		for step, o := range ops {
 			ids := e.snapshotIDs()
 			before, err := vLoadSnaps(t, e.store.Files())
@@ -176,7 +181,10 @@ func TestVerif_C26(t *testing.T) {
 			}
 			target := ids[r.Intn(len(ids))]
 			// fault choice for this step
-			fk := []string{"none", "none", "fail", "die", "fail-after-effect"}[r.Intn(5)]
+			fk := []string{"none", "none", "fail", "die", "fail-after-effect", "loadfail"}[r.Intn(6)]
+			if o.Kind == "repair-forget-all" && (r.Intn(2) == 0 || o.Arg == "!") {
+				fk = "loadfail"
+			}
 			k := 1 + r.Intn(4)
 			base := e.store.NumMut()
 			startSeq := e.store.NumOps()
@@ -186,6 +194,15 @@ func TestVerif_C26(t *testing.T) {
 				e.store.Fault = kit.FailAt(base+k, false)
 			case "fail-after-effect":
 				e.store.Fault = kit.FailAt(base+k, true)
+			case "loadfail":
+				// the backend cannot deliver one healthy snapshot file for the duration of the command
+				tname := target
+				e.store.ReadFault = func(proc string, h backend.Handle, length int, off int64, d []byte) ([]byte, error) {
+					if h.Type == backend.SnapshotFile && h.Name == tname {
+						return nil, fmt.Errorf("%w (load of snapshot %.8s)", kit.ErrInjected, tname)
+					}
+					return d, nil
+				}
 			case "die":
 				e.store.DieAt = base + k
 				wrap = func(ctx context.Context) (context.Context, func()) {
@@ -196,6 +213,7 @@ func TestVerif_C26(t *testing.T) {
 			}
 			cerr := e.rewriteOp(o, []string{target}, wrap)
 			e.store.Revive()
+			e.store.ReadFault = nil
 			for _, n := range e.store.Names(backend.LockFile) {
 				e.store.Del(backend.Handle{Type: backend.LockFile, Name: n})
 			}
